@@ -403,6 +403,29 @@ def generate():
     m = re.search(r'let\s+events\s*=\s*libc::POLLIN\s*\|\s*libc::POLLPRI\s*\|\s*POLLRDHUP\s*;', crecv)
     out.append(f"def shape_pollEvents : Bool := {'true' if m else 'false'}  -- POLLIN | POLLPRI | POLLRDHUP")
     out.append("")
+    # shared memory (C05/C18): the size given to the memory object and the length mapped by the creator
+    _, _, bsnew = find_fn(unix, 'new', 0) if False else (None, None, None)
+    mb = re.search(r'impl BackingStore \{', unix)
+    if not mb:
+        fail("impl BackingStore not found")
+    bs = strip_comments(unix[mb.end():find_block(unix, mb.end()) - 1])
+    m = re.search(r'let\s+fd\s*=\s*create_shmem\(name,\s*([^;]+?)\);', bs)
+    if not m:
+        fail("BackingStore::new: create_shmem call not found")
+    e, _ = tr_expr(m.group(1), {'length': 'length'})
+    sizes = re.findall(r'libc::ftruncate\(fd,\s*(\w+)\s+as\s+off_t\)', unix)
+    if not sizes or any(x != 'length' for x in sizes):
+        fail("create_shmem: ftruncate(fd, length as off_t) not found")
+    out.append(f"def shmObjectSize (length : Nat) : Nat := {e}")
+    m = re.search(r'if\s+length\s*==\s*0\s*\{[^}]*return\s*\(ptr::null_mut\(\),\s*length\);', bs, re.S)
+    out.append(f"def shape_mapZeroIsNull : Bool := {'true' if m else 'false'}")
+    md = re.search(r'fn deref\(&self\) -> &\[u8\] \{', unix)
+    dz = False
+    if md:
+        body = strip_comments(unix[md.end():find_block(unix, md.end()) - 1])
+        dz = bool(re.search(r'if\s+self\.ptr\.is_null\(\)\s*\{\s*return\s*&\[\];\s*\}', body))
+    out.append(f"def shape_derefNullIsEmpty : Bool := {'true' if dz else 'false'}")
+    out.append("")
     # Router::run (C07/C17): which statement ends the loop on Shutdown, and how a closed wake-up is handled
     _, _, run = find_fn(router, 'run')
     out.append(f"def routerRunArms : Nat := {len(re.findall(r'IpcSelectionResult::', run))}")
